@@ -32,9 +32,10 @@ header's, and its transactions, last-commit signatures and evidence are exactly 
 block under that header — or a collision of `H` is exhibited. (`BlockID.PartSetHeader` and
 `LastCommit.{Height,Round,BlockID}` are not claimed: see `block_partSetHeader_not_bound`.) -/
 theorem relay_sound_block (L : Nat) (hL : 0 < L) (hlen : ∀ x, (H x).length = L)
-    (lc lc' : LC) (hok : ChainOK lc) (res : ResultBlock) (hacc : verifyBlock H lc res = (.ok, lc')) :
+    (lc lc' : LC) (hok : ChainOK lc) (req : BlockReq) (res : ResultBlock)
+    (hacc : verifyBlock H lc req res = (.ok, lc')) :
     ∃ b t, res.block = some b ∧ lc.at? b.header.height = some t ∧ lc'.chain = lc.chain ∧
-      res.blockID.hash = t.header.hash H ∧
+      res.blockID.hash = t.header.hash H ∧ req.matches res b = true ∧
       ((b.header.fields = t.header.fields ∧
         ∀ hb, HonestBlock H t hb →
           b.txs = hb.txs ∧ b.lastCommitSigs = hb.lastCommitSigs ∧ b.evidence = hb.evidence)
@@ -47,6 +48,8 @@ theorem relay_sound_block (L : Nat) (hL : 0 < L) (hlen : ∀ x, (H x).length = L
   rename_i hvb
   split at hacc; · simp at hacc
   rename_i hid
+  split at hacc; · simp at hacc
+  rename_i hreq
   split at hacc
   · simp at hacc
   · rename_i t lc1 hupd
@@ -57,7 +60,7 @@ theorem relay_sound_block (L : Nat) (hL : 0 < L) (hlen : ∀ x, (H x).length = L
     obtain ⟨hchain, _, hat⟩ := updateTo_ok lc lc1 _ t hupd
     have hat' := hat _ rfl
     have hlc : lc' = lc1 := by simp at hacc; exact hacc.symm
-    refine ⟨b, t, hb, hat', by rw [hlc]; exact hchain, by rw [hid', hhash'], ?_⟩
+    refine ⟨b, t, hb, hat', by rw [hlc]; exact hchain, by rw [hid', hhash'], by simpa using hreq, ?_⟩
     by_cases hno : Nonempty (Collision H)
     · right; exact hno
     have htv : t.header.validatorsHash ≠ [] := hok.vh _ _ hat'
@@ -112,10 +115,11 @@ theorem relay_sound_block (L : Nat) (hL : 0 < L) (hlen : ∀ x, (H x).length = L
 /-- … and since the 14 hashed byte strings determine the header (for wire-sized fields), the relayed
 header IS the verified header. -/
 theorem relay_sound_block_header (L : Nat) (hL : 0 < L) (hlen : ∀ x, (H x).length = L)
-    (lc lc' : LC) (hok : ChainOK lc) (res : ResultBlock) (hacc : verifyBlock H lc res = (.ok, lc')) :
+    (lc lc' : LC) (hok : ChainOK lc) (req : BlockReq) (res : ResultBlock)
+    (hacc : verifyBlock H lc req res = (.ok, lc')) :
     ∃ b t, res.block = some b ∧ lc.at? b.header.height = some t ∧
       (b.header.WF → t.header.WF → b.header = t.header ∨ Nonempty (Collision H)) := by
-  obtain ⟨b, t, h1, h2, _, _, h5⟩ := relay_sound_block H L hL hlen lc lc' hok res hacc
+  obtain ⟨b, t, h1, h2, _, _, _, h5⟩ := relay_sound_block H L hL hlen lc lc' hok req res hacc
   refine ⟨b, t, h1, h2, ?_⟩
   intro w1 w2
   rcases h5 with ⟨hf, _⟩ | hc
@@ -129,8 +133,9 @@ theorem relay_complete_block (lc : LC) (hok : ChainOK lc) (k : Int) (t : LightBl
     (hat : lc.at? k = some t) (hb : Block) (hh : HonestBlock H t hb)
     (hvalid : hb.header.validateBasic = true)
     (hcommit : hb.lastCommitNil = false ∧ hb.lastCommitOK = true ∧ hb.evidenceOK = true)
-    (bid : BlockID) (hbid : bid.hash = t.header.hash H) (hbidv : bid.validateBasic = true) :
-    ∃ lc', verifyBlock H lc { blockID := bid, block := some hb } = (.ok, lc') := by
+    (bid : BlockID) (hbid : bid.hash = t.header.hash H) (hbidv : bid.validateBasic = true)
+    (req : BlockReq) (hreq : req = .height none ∨ req = .height (some k) ∨ req = .hash bid.hash) :
+    ∃ lc', verifyBlock H lc req { blockID := bid, block := some hb } = (.ok, lc') := by
   have hheight : hb.header.height = k := by rw [hh.header]; exact hok.height _ _ hat
   obtain ⟨lc1, hupd⟩ := updateTo_some_complete lc k t hat
   have hvb : hb.validateBasic H = true := by
@@ -140,9 +145,11 @@ theorem relay_complete_block (lc : LC) (hok : ChainOK lc) (k : Int) (t : LightBl
     · rw [hh.header]; exact hh.commit
     · rw [hh.header]; exact hh.data
     · rw [hh.header]; exact hh.evidence
+  have hm : req.matches { blockID := bid, block := some hb } hb = true := by
+    rcases hreq with rfl | rfl | rfl <;> simp [BlockReq.matches, hheight]
   refine ⟨lc1, ?_⟩
   unfold verifyBlock
-  simp only [hbidv, hvb, Bool.not_true, Bool.false_eq_true, if_false, hheight, hupd]
+  simp only [hbidv, hvb, hm, Bool.not_true, Bool.false_eq_true, if_false, hheight, hupd]
   simp [hbid, hh.header]
 
 /-! ## Tx (with inclusion proof) -/
@@ -214,7 +221,7 @@ theorem relay_complete_tx (L : Nat) (hL : 0 < L) (hlen : ∀ x, (H x).length = L
       { hash := H txs[i], height := k, index := idx, tx := txs[i], resultCode := code,
         resultData := data, proof := proofFor H txs i } = (.ok, lc') := by
   obtain ⟨lc1, hupd⟩ := updateTo_some_complete lc k t hat
-  have hv := C10.txproof_validates H L hL hlen txs i hi
+  have hv := proofFor_validates H txs i hi
   refine ⟨lc1, ?_⟩
   unfold verifyTx
   have hk' : ¬ k ≤ 0 := by omega
@@ -283,9 +290,10 @@ def hashedParams (p : Params) : Bytes := fVarint 0x08 (u64 p.maxBytes) ++ fVarin
 the providers have, and its hashed part (Block.MaxBytes, Block.MaxGas) encodes like that of the
 parameters committed by that header's `ConsensusHash` — or a collision. The other parameters are
 bound by no header. -/
-theorem relay_sound_params (lc lc' : LC) (blockHeight : Int) (p : Params)
-    (hacc : verifyParams H lc blockHeight p = (.ok, lc')) :
-    p.validate = true ∧ ∃ t, lc.at? blockHeight = some t ∧ lc'.chain = lc.chain ∧
+theorem relay_sound_params (lc lc' : LC) (req : Option Int) (blockHeight : Int) (p : Params)
+    (hacc : verifyParams H lc req blockHeight p = (.ok, lc')) :
+    p.validate = true ∧ (∀ k, req = some k → blockHeight = k) ∧
+    ∃ t, lc.at? blockHeight = some t ∧ lc'.chain = lc.chain ∧
       p.hash H = t.header.consensusHash ∧
       (∀ p' : Params, t.header.consensusHash = p'.hash H →
         I64 p.maxBytes → I64 p.maxGas → I64 p'.maxBytes → I64 p'.maxGas →
@@ -294,6 +302,11 @@ theorem relay_sound_params (lc lc' : LC) (blockHeight : Int) (p : Params)
   split at hacc; · simp at hacc
   rename_i hv
   split at hacc; · simp at hacc
+  split at hacc; · simp at hacc
+  rename_i hreq
+  have hreq' : ∀ k, req = some k → blockHeight = k := by
+    intro k hk; subst hk
+    simpa using hreq
   split at hacc
   · simp at hacc
   · rename_i t lc1 hupd
@@ -302,7 +315,7 @@ theorem relay_sound_params (lc lc' : LC) (blockHeight : Int) (p : Params)
     rename_i hhash
     have hhash' : p.hash H = t.header.consensusHash := by simpa using hhash
     have hlc : lc' = lc1 := by simp at hacc; exact hacc.symm
-    refine ⟨by simpa using hv, t, hat _ rfl, by rw [hlc]; exact hchain, hhash', ?_⟩
+    refine ⟨by simpa using hv, hreq', t, hat _ rfl, by rw [hlc]; exact hchain, hhash', ?_⟩
     intro p' hp' b1 g1 b2 g2
     rw [hp'] at hhash'
     unfold Params.hash at hhash'
@@ -321,13 +334,13 @@ theorem relay_sound_params (lc lc' : LC) (blockHeight : Int) (p : Params)
 /-- **Completeness (ConsensusParams).** Valid parameters whose hash the header carries are relayed. -/
 theorem relay_complete_params (lc : LC) (k : Int) (hk : 0 < k) (t : LightBlock)
     (hat : lc.at? k = some t) (p : Params) (hv : p.validate = true)
-    (hh : t.header.consensusHash = p.hash H) :
-    ∃ lc', verifyParams H lc k p = (.ok, lc') := by
+    (hh : t.header.consensusHash = p.hash H) (req : Option Int) (hreq : req = none ∨ req = some k) :
+    ∃ lc', verifyParams H lc req k p = (.ok, lc') := by
   obtain ⟨lc1, hupd⟩ := updateTo_some_complete lc k t hat
   refine ⟨lc1, ?_⟩
   unfold verifyParams
   have : ¬ k ≤ 0 := by omega
-  simp [hv, this, hupd, hh]
+  rcases hreq with rfl | rfl <;> simp [hv, this, hupd, hh]
 
 /-! ## BlockchainInfo -/
 
@@ -337,26 +350,34 @@ verified ones, or a collision is exhibited) and its `BlockID.Hash` is that hash.
 `NumTxs`, `LastHeight` are bound by no header; for `BlockID.PartSetHeader` see
 `relay_sound_blockchainInfo_partSetHeader_fails`. -/
 theorem relay_sound_blockchainInfo (L : Nat) (hL : 0 < L) (hlen : ∀ x, (H x).length = L)
-    (lc lc' : LC) (hok : ChainOK lc) (metas : List (Option BlockMeta))
-    (hacc : verifyBlockchainInfo H lc metas = (.ok, lc')) :
+    (lc lc' : LC) (hok : ChainOK lc) (minH maxH : Int) (metas : List (Option BlockMeta))
+    (hacc : verifyBlockchainInfo H lc minH maxH metas = (.ok, lc')) :
     lc'.chain = lc.chain ∧
     ∀ x ∈ metas, ∃ m t, x = some m ∧ lc.at? m.header.height = some t ∧
       m.header.hash H = t.header.hash H ∧ m.blockID.hash = t.header.hash H ∧
+      InRange minH maxH m.header.height ∧
       (m.header.fields = t.header.fields ∨ Nonempty (Collision H)) := by
   unfold verifyBlockchainInfo at hacc
-  split at hacc; · simp at hacc
-  rename_i hany
+  split at hacc
+  · rename_i v hsome
+    simp only [Prod.mk.injEq] at hacc
+    rw [hacc.1] at hsome
+    exact absurd hsome (checkMetas_ne_ok H minH maxH metas)
+  rename_i hchk
+  have hck := checkMetas_none H minH maxH metas hchk
   have hvalid : ∀ x ∈ metas, ∀ m, x = some m → m.validateBasic H = true := by
     intro x hx m hm
-    have := hany
-    simp only [List.any_eq_true, not_exists, not_and] at this
-    have h2 := this x hx
-    subst hm
-    simpa [metaBad] using h2
+    obtain ⟨m', e, hv, _⟩ := hck x hx
+    rw [hm] at e; simp only [Option.some.injEq] at e; subst e; exact hv
+  have hrange : ∀ x ∈ metas, ∀ m, x = some m → InRange minH maxH m.header.height := by
+    intro x hx m hm
+    obtain ⟨m', e, _, hr⟩ := hck x hx
+    rw [hm] at e; simp only [Option.some.injEq] at e; subst e; exact hr
   have key : ∀ lcA : LC, lcA.chain = lc.chain → verifyMetas H lcA metas = (.ok, lc') →
       lc'.chain = lc.chain ∧
       ∀ x ∈ metas, ∃ m t, x = some m ∧ lc.at? m.header.height = some t ∧
         m.header.hash H = t.header.hash H ∧ m.blockID.hash = t.header.hash H ∧
+        InRange minH maxH m.header.height ∧
         (m.header.fields = t.header.fields ∨ Nonempty (Collision H)) := by
     intro lcA hA hv
     obtain ⟨hc, hall⟩ := verifyMetas_sound H metas lcA lc' hv
@@ -366,7 +387,7 @@ theorem relay_sound_blockchainInfo (L : Nat) (hL : 0 < L) (hlen : ∀ x, (H x).l
     rw [at?_of_chain_eq lc lcA hA] at e2
     have hvb := hvalid x hx m e1
     simp only [BlockMeta.validateBasic, Bool.and_eq_true, decide_eq_true_eq] at hvb
-    refine ⟨m, t, e1, e2, e3, by rw [hvb.2, e3], ?_⟩
+    refine ⟨m, t, e1, e2, e3, by rw [hvb.2, e3], hrange x hx m e1, ?_⟩
     have htv : t.header.validatorsHash ≠ [] := hok.vh _ _ e2
     unfold Header.hash at e3
     by_cases hbv : m.header.validatorsHash = []
@@ -387,18 +408,19 @@ theorem relay_sound_blockchainInfo (L : Nat) (hL : 0 < L) (hlen : ∀ x, (H x).l
   · exact key lc rfl hacc
 
 /-- **Completeness (BlockchainInfo).** An answer all of whose metas carry the header of the block the
-providers have at that height, with the `BlockID` whose hash is the header's, is relayed — whatever
+providers have at that height, inside the requested range, with the `BlockID` whose hash is the
+header's, is relayed — whatever
 the number and order of the listed heights and whatever the light client had stored before. -/
-theorem relay_complete_blockchainInfo (lc : LC) (metas : List (Option BlockMeta))
+theorem relay_complete_blockchainInfo (lc : LC) (minH maxH : Int) (metas : List (Option BlockMeta))
     (hall : ∀ x ∈ metas, ∃ m t, x = some m ∧ lc.at? m.header.height = some t ∧ m.header = t.header ∧
-      m.blockID.hash = t.header.hash H ∧ m.blockID.validateBasic = true) :
-    ∃ lc', verifyBlockchainInfo H lc metas = (.ok, lc') := by
-  have hany : ¬ (metas.any (metaBad H) = true) := by
-    simp only [List.any_eq_true, not_exists, not_and]
+      m.blockID.hash = t.header.hash H ∧ m.blockID.validateBasic = true ∧
+      InRange minH maxH m.header.height) :
+    ∃ lc', verifyBlockchainInfo H lc minH maxH metas = (.ok, lc') := by
+  have hany : checkMetas H minH maxH metas = none := by
+    apply checkMetas_complete
     intro x hx
-    obtain ⟨m, t, e1, _, e3, e4, e5⟩ := hall x hx
-    subst e1
-    simp [metaBad, BlockMeta.validateBasic, e5, e4, e3]
+    obtain ⟨m, t, e1, _, e3, e4, e5, e6⟩ := hall x hx
+    exact ⟨m, e1, by simp [BlockMeta.validateBasic, e5, e4, e3], e6⟩
   have hall' : ∀ lcA : LC, lcA.chain = lc.chain →
       ∀ x ∈ metas, ∃ m t, x = some m ∧ lcA.at? m.header.height = some t ∧ m.header = t.header := by
     intro lcA hA x hx
@@ -736,15 +758,15 @@ theorem honest : HonestBlock H0 lb blk where
 /-- the honest answer with a falsified `PartSetHeader` (7 parts, no hash; the commit signs 1 part) -/
 def badBid : BlockID := { hash := z32, total := 7, psHash := [] }
 
-theorem bad_accepted : ∃ lc', verifyBlock H0 lc0 { blockID := badBid, block := some blk } = (.ok, lc') :=
+theorem bad_accepted : ∃ lc', verifyBlock H0 lc0 (.height (some 1)) { blockID := badBid, block := some blk } = (.ok, lc') :=
   relay_complete_block H0 lc0 chainOK 1 lb at_one blk honest (by decide) ⟨rfl, rfl, rfl⟩ badBid
-    (by rw [show lb.header = hdr from rfl, hdr_hash]; rfl) (by decide)
+    (by rw [show lb.header = hdr from rfl, hdr_hash]; rfl) (by decide) _ (Or.inr (Or.inl rfl))
 end Wit
 
 /-- the full statement one would want for `BlockID.PartSetHeader` (the trusted commit signs it) -/
 def BlockBindsPartSetHeader : Prop :=
-  ∀ (H : Bytes → Bytes) (lc lc' : LC) (res : ResultBlock), ChainOK lc →
-    verifyBlock H lc res = (.ok, lc') →
+  ∀ (H : Bytes → Bytes) (lc lc' : LC) (req : BlockReq) (res : ResultBlock), ChainOK lc →
+    verifyBlock H lc req res = (.ok, lc') →
     ∃ b t, res.block = some b ∧ lc.at? b.header.height = some t ∧
       res.blockID.total = t.commitBlockID.total ∧ res.blockID.psHash = t.commitBlockID.psHash
 
@@ -753,7 +775,7 @@ part-set header is relayed. -/
 theorem relay_sound_block_partSetHeader_fails : ¬ BlockBindsPartSetHeader := by
   intro hall
   obtain ⟨lc', hacc⟩ := Wit.bad_accepted
-  obtain ⟨b, t, hb, hat, htot, _⟩ := hall Wit.H0 Wit.lc0 lc' _ Wit.chainOK hacc
+  obtain ⟨b, t, hb, hat, htot, _⟩ := hall Wit.H0 Wit.lc0 lc' _ _ Wit.chainOK hacc
   simp only [Option.some.injEq] at hb
   subst hb
   have := (Wit.at_inv _ _ hat).2
@@ -775,8 +797,8 @@ theorem tx_index_not_bound : ¬ TxBindsIndex := by
 
 /-- the full statement one would want for the part-set header of a relayed block meta -/
 def MetaBindsPartSetHeader : Prop :=
-  ∀ (H : Bytes → Bytes) (lc lc' : LC) (metas : List (Option BlockMeta)), ChainOK lc →
-    verifyBlockchainInfo H lc metas = (.ok, lc') →
+  ∀ (H : Bytes → Bytes) (lc lc' : LC) (minH maxH : Int) (metas : List (Option BlockMeta)), ChainOK lc →
+    verifyBlockchainInfo H lc minH maxH metas = (.ok, lc') →
     ∀ m, some m ∈ metas → ∃ t, lc.at? m.header.height = some t ∧
       m.blockID.total = t.commitBlockID.total ∧ m.blockID.psHash = t.commitBlockID.psHash
 
@@ -785,16 +807,108 @@ theorem relay_sound_blockchainInfo_partSetHeader_fails : ¬ MetaBindsPartSetHead
   intro hall
   let m : BlockMeta := { blockID := Wit.badBid, blockSize := 0, header := Wit.hdr, numTxs := 0 }
   have hm : ∀ x ∈ [some m], ∃ m' t, x = some m' ∧ Wit.lc0.at? m'.header.height = some t ∧
-      m'.header = t.header ∧ m'.blockID.hash = t.header.hash Wit.H0 ∧ m'.blockID.validateBasic = true := by
+      m'.header = t.header ∧ m'.blockID.hash = t.header.hash Wit.H0 ∧ m'.blockID.validateBasic = true ∧
+      InRange 0 0 m'.header.height := by
     intro x hx
     simp only [List.mem_singleton] at hx
     subst hx
-    exact ⟨m, Wit.lb, rfl, Wit.at_one, rfl, by rw [show Wit.lb.header = Wit.hdr from rfl, Wit.hdr_hash]; rfl, by decide⟩
-  obtain ⟨lc', hacc⟩ := relay_complete_blockchainInfo Wit.H0 Wit.lc0 [some m] hm
-  obtain ⟨t, hat, htot, _⟩ := hall Wit.H0 Wit.lc0 lc' _ Wit.chainOK hacc m (by simp)
+    exact ⟨m, Wit.lb, rfl, Wit.at_one, rfl, by rw [show Wit.lb.header = Wit.hdr from rfl, Wit.hdr_hash]; rfl, by decide, by unfold InRange; omega⟩
+  obtain ⟨lc', hacc⟩ := relay_complete_blockchainInfo Wit.H0 Wit.lc0 0 0 [some m] hm
+  obtain ⟨t, hat, htot, _⟩ := hall Wit.H0 Wit.lc0 lc' 0 0 _ Wit.chainOK hacc m (by simp)
   have := (Wit.at_inv _ _ hat).2
   subst this
   revert htot
+  decide
+
+/-! ## Request binding: the relayed answer is the answer to what the caller asked -/
+
+/-- **Block / BlockByHash answer the request**: a relayed block is of the requested height, resp. has
+the requested hash (with no height given, "latest" is whatever the node says: nothing to bind). -/
+theorem relay_binds_request_block (L : Nat) (hL : 0 < L) (hlen : ∀ x, (H x).length = L)
+    (lc lc' : LC) (hok : ChainOK lc) (req : BlockReq) (res : ResultBlock)
+    (hacc : verifyBlock H lc req res = (.ok, lc')) :
+    ∃ b, res.block = some b ∧ (∀ h, req = .height (some h) → b.header.height = h) ∧
+      (∀ x, req = .hash x → res.blockID.hash = x ∧ b.header.hash H = x) := by
+  obtain ⟨b, t, hb, _, _, hid, hm, _⟩ := relay_sound_block H L hL hlen lc lc' hok req res hacc
+  unfold verifyBlock at hacc
+  rw [hb] at hacc
+  simp only at hacc
+  split at hacc; · simp at hacc
+  split at hacc; · simp at hacc
+  split at hacc; · simp at hacc
+  rename_i hidm
+  refine ⟨b, hb, ?_, ?_⟩
+  · intro h hr; subst hr; simpa [BlockReq.matches] using hm
+  · intro x hr; subst hr
+    have e : res.blockID.hash = x := by simpa [BlockReq.matches] using hm
+    have e2 : res.blockID.hash = b.header.hash H := by simpa using hidm
+    exact ⟨e, by rw [← e2, e]⟩
+
+/-- **ConsensusParams, BlockResults, Tx, BlockchainInfo, Commit answer the request** (collected from the
+soundness theorems): the height label is the requested height; the transaction hashes to the requested
+hash; every listed height lies in the requested range; the commit is of the requested height. -/
+theorem relay_binds_request_others :
+    (∀ (lc lc' : LC) (req : Option Int) (bh : Int) (p : Params),
+        verifyParams H lc req bh p = (.ok, lc') → ∀ k, req = some k → bh = k) ∧
+    (∀ (lc lc' : LC) (h rh : Int) (rs : List TxResult),
+        verifyBlockResults H lc h rh rs = (.ok, lc') → rh = h) ∧
+    (∀ (lc lc' : LC) (reqHash : Bytes) (res : ResultTx),
+        verifyTx H lc reqHash res = (.ok, lc') → H res.tx = reqHash ∧ res.hash = reqHash) ∧
+    (∀ (lc lc' : LC) (req : Option Int) (l : LightBlock) (v : Verdict),
+        commit lc req = ((v, some l), lc') → ∀ k, req = some k → lc.at? k = some l) := by
+  refine ⟨?_, ?_, ?_, ?_⟩
+  · intro lc lc' req bh p h
+    exact (relay_sound_params H lc lc' req bh p h).2.1
+  · intro lc lc' h rh rs hacc
+    unfold verifyBlockResults at hacc
+    split at hacc; · simp at hacc
+    split at hacc; · simp at hacc
+    rename_i hl; simpa using hl
+  · intro lc lc' reqHash res hacc
+    unfold verifyTx at hacc
+    split at hacc; · simp at hacc
+    split at hacc
+    · simp at hacc
+    · split at hacc
+      all_goals try (simp at hacc; done)
+      split at hacc; · simp at hacc
+      split at hacc; · simp at hacc
+      rename_i hh
+      constructor
+      · rcases Decidable.em (H res.tx = reqHash) with h | h
+        · exact h
+        · exact absurd (Or.inl h) hh
+      · rcases Decidable.em (res.hash = reqHash) with h | h
+        · exact h
+        · exact absurd (Or.inr h) hh
+  · intro lc lc' req l v h
+    exact ((relay_sound_commit lc lc' req v (some l) h).2 l rfl).2
+
+/-- the full statement one would want for proven application queries: the relayed answer is for the
+key (`data`) and, when one was given, the height the caller asked for -/
+def ABCIBindsRequest : Prop :=
+  ∀ (H : Bytes → Bytes) (lc lc' : LC) (store : Option Bytes) (data : Bytes) (qh : Int) (r : ABCIResp),
+    verifyABCI H lc store r = (.ok, lc') → r.key = data ∧ (0 < qh → r.height = qh)
+
+/-- **Known finding.** `ABCIQueryWithOptions` never compares the answer's `Key` / `Height` with the
+request's `data` / `opts.Height` (the model's `verifyABCI` does not even take them): a genuine proven
+answer for another key or height is relayed. Not repaired: what `data` means and which height an
+application reports are application conventions, not something a header commits to; the relayed
+answer carries `Key` and `Height`, so the caller can compare. -/
+theorem relay_binds_request_abci_fails : ¬ ABCIBindsRequest := by
+  intro hall
+  have hat : LC.at? { chain := [Wit.lb, Wit.lb], stored := [1] } (1 + 1) = some Wit.lb := by
+    simp [LC.at?]
+  have happ : Wit.lb.header.appHash = appHashOf Wit.H0 [([115], [([107], [118])])] := by
+    show Wit.z32 = root Wit.H0 _; rw [Wit.root_H0]
+  have hdec : ∀ o ∈ honestOps Wit.H0 [([115], [([107], [118])])] 0 0, o.decodes = true := by
+    intro o ho
+    simp only [honestOps, List.getD_cons_zero, List.mem_cons, List.not_mem_nil, or_false] at ho
+    rcases ho with rfl | rfl <;> decide
+  obtain ⟨lc', hacc⟩ := relay_complete_abci Wit.H0 _ 1 (by decide) Wit.lb hat [([115], [([107], [118])])] happ 0 0
+    (by decide) (by decide) (by decide) (by decide) (by decide) (by decide) hdec
+  have := (hall Wit.H0 _ lc' _ [1, 2, 3] 7 _ hacc).1
+  revert this
   decide
 
 /-! ## Latest-height requests (no height given) -/
@@ -854,7 +968,7 @@ block and every position (from C10 completeness), and therefore the verifying cl
 theorem served_proof_verifies (L : Nat) (hL : 0 < L) (hlen : ∀ x, (H x).length = L)
     (txs : List Bytes) (i : Nat) (hi : i < txs.length) :
     validate H (txsHash H txs) (proofFor H txs i) = .ok () ∧ (proofFor H txs i).data = txs[i] := by
-  refine ⟨C10.txproof_validates H L hL hlen txs i hi, ?_⟩
+  refine ⟨proofFor_validates H txs i hi, ?_⟩
   simp [proofFor, List.getD_eq_getElem?_getD, hi]
 
 /-- **Every proof `TxSearch` serves verifies against the data hash of the block it refers to**, for
@@ -927,11 +1041,11 @@ example : ChainOK Wit.lc0 ∧ StoreOK Wit.lc0 ∧ HonestBlock Wit.H0 Wit.lb Wit.
   exact ⟨_, Wit.at_one⟩
 
 /-- an accepted block answer exists (so `relay_sound_block` is not vacuous) … -/
-example : ∃ res lc', verifyBlock Wit.H0 Wit.lc0 res = (.ok, lc') :=
-  let ⟨lc', h⟩ := Wit.bad_accepted; ⟨_, lc', h⟩
+example : ∃ req res lc', verifyBlock Wit.H0 Wit.lc0 req res = (.ok, lc') :=
+  let ⟨lc', h⟩ := Wit.bad_accepted; ⟨_, _, lc', h⟩
 
 /-- … and a refused one -/
-example : (verifyBlock Wit.H0 Wit.lc0 { blockID := Wit.badBid, block := none }).1 = .errBlock := by
+example : (verifyBlock Wit.H0 Wit.lc0 (.height none) { blockID := Wit.badBid, block := none }).1 = .errBlock := by
   decide
 
 /-- the hypotheses of `relay_complete_abci` are satisfiable (one store `s` holding `k ↦ v`), so an
